@@ -586,8 +586,11 @@ func runC08Typed(ctx *core.Ctx) {
 
 func runC08Loads(ctx *core.Ctx) {
 	runC08Typed(ctx)
+	runC08Meta(ctx)
 }
 
 func init() {
 	core.Register("c08typed", &core.CheckDef{Real: realTyped, Judge: judgeTyped})
+	core.Register("c08meta", &core.CheckDef{Real: realMeta, Judge: judgeMeta})
+	core.Register("c08escape", &core.CheckDef{Real: realEscape, Judge: judgeMeta})
 }
